@@ -237,17 +237,20 @@ func (n *Net) BASM(useMov bool) string {
 		}
 		return fmt.Sprintf("cp:cp%d, type:%s, index:%d", e.CP, dir, e.Idx)
 	}
+	// basm pairs the two ioatt lines that carry the same link name, so a link
+	// with k consumers is written as k named pairs sharing the producer endpoint.
 	for i, l := range n.Links {
-		if l.Src.CP == -1 {
-			fmt.Fprintf(&b, "%%meta ioatt l%d %s\n", i, ep(l.Src, "input"))
-		} else {
-			fmt.Fprintf(&b, "%%meta ioatt l%d %s\n", i, ep(l.Src, "output"))
-		}
-		for _, d := range l.Dst {
-			if d.CP == -1 {
-				fmt.Fprintf(&b, "%%meta ioatt l%d %s\n", i, ep(d, "output"))
+		for k, d := range l.Dst {
+			name := fmt.Sprintf("l%d_%d", i, k)
+			if l.Src.CP == -1 {
+				fmt.Fprintf(&b, "%%meta ioatt %s %s\n", name, ep(l.Src, "input"))
 			} else {
-				fmt.Fprintf(&b, "%%meta ioatt l%d %s\n", i, ep(d, "input"))
+				fmt.Fprintf(&b, "%%meta ioatt %s %s\n", name, ep(l.Src, "output"))
+			}
+			if d.CP == -1 {
+				fmt.Fprintf(&b, "%%meta ioatt %s %s\n", name, ep(d, "output"))
+			} else {
+				fmt.Fprintf(&b, "%%meta ioatt %s %s\n", name, ep(d, "input"))
 			}
 		}
 	}
